@@ -8,6 +8,7 @@
 //	outbound_test.go the real gater in a real swarm over scripted transports (outbound)
 //	inbound_test.go  the real gater behind the real upgrader over in-memory conns (inbound)
 //	quic_test.go     the QUIC transport's own gating call sites over simnet
+//	witness_test.go  minimal deterministic witnesses of the two defects found
 package c10
 
 import (
@@ -45,8 +46,9 @@ func TestMain(m *testing.M) {
 			"result, ConnsToPeer and Connected notifications are audited against the model over two phases with rule changes in between. "+
 			"(c) the real gater behind the real upgrader (Noise + yamux) on an in-memory listener inside a real swarm: per inbound attempt the raw server-side conn's byte counters, "+
 			"its closure and the swarm's admission are audited; QUIC's own call sites run over simnet with arbitrary source IPs. "+
-			"Non-trivial = a probed/dialled/accepted remote matches a rule in force through a non-canonical form (mapped spelling, 16-byte rule vs 4-byte remote, subnet edge, host-bit subnet, resolved DNS name) "+
-			"or the case contains a reopen on a non-empty rule set; distinct = distinct (pool, op history, attempts).",
+			"Per history every crash point is enumerated (one snapshot per applied write); histories, faults and remotes are sampled. "+
+			"Non-trivial = a probed/dialled/accepted remote matches a rule in force through a non-canonical form (mapped spelling, 16-byte rule vs 4-byte remote, subnet rule hit at an edge address, "+
+			"resolved DNS name) or the case contains a reopen on a non-empty rule set; distinct = distinct (pool, op history, attempts).",
 		"the datastore double applies every write atomically and either applies it or fails it (no 'applied but reported failed' mode); read failures are not injected",
 		"a subnet is identified by the set of addresses it covers (IP masked by Mask), not by the spelling of the IPNet value: the last successful Block/Unblock of that set decides "+
 			"(known finding "+kfHostBits+": while listed as known, an Unblock spelled differently from a Block still on record gives no verdict for that subnet)",
@@ -640,7 +642,7 @@ func drawSub(rt *rapid.T, prev []sub) sub {
 	}
 	v6 := rapid.IntRange(0, 2).Draw(rt, "v6") == 0
 	a := drawIP(rt, v6, "subbase")
-	if rapid.IntRange(0, 24).Draw(rt, "noncidr") == 0 {
+	if rapid.IntRange(0, 39).Draw(rt, "noncidr") == 20 {
 		// a mask that is not a prefix (net.IPNet allows it, Contains honours it)
 		if kf.Known(kfMask) {
 			excludedMasks++
@@ -849,8 +851,8 @@ type failer interface {
 
 // obs collects what a comparison saw (for the non-trivial rule / labels).
 type obs struct {
-	noncanonBlocked, edgeBlocked, edgeFree, mappedRuleHit, unspecified, ambiguous bool
-	blockedProbes, freeProbes, refusedCalls                                       int
+	noncanonBlocked, edgeBlocked, edgeFree, unspecified, ambiguous bool
+	blockedProbes, freeProbes, refusedCalls                        int
 }
 
 // checkGater compares g with every model state between lo and hi (lo == hi: exact).
@@ -1057,13 +1059,4 @@ func checkGater(f failer, what string, g *conngater.BasicConnectionGater, w *wor
 			}
 		}
 	}
-}
-
-func sortedKeys[V any](m map[string]V) []string {
-	var ks []string
-	for k := range m {
-		ks = append(ks, k)
-	}
-	sort.Strings(ks)
-	return ks
 }
